@@ -66,7 +66,7 @@ def token_factory_rules(ck, C):
         tk = T.calls(g, name="token", path="TokenFactory::token")
         reg = [cs for cs in T.calls(g, name=callee) if cs.f["path"].startswith(path)]
         for r_ in reg:
-            targ = r_.args[4] if callee != "insert" else r_.args[2]
+            targ = T.arg_by_type(g, r_, "sys::Token", 4 if callee != "insert" else 2)
             roots = {r for r, p in g.resolve(targ)}
             only = bool(tk) and roots and all(r[0] == "call" and r[1] in [c.bb for c in tk] for r in roots)
             dom = bool(tk) and T.t3_dominated_by_any(g, r_.bb, [c.bb for c in tk])
@@ -223,7 +223,9 @@ def run(ck):
                             c2 = body.call_at(r[1])
                             if c2.name == "from" and "TokenInner" in (c2.full or "") and T.path_has(body, c2.args[0], ".key") and p in ((), (".inner",)):
                                 ok = True
-                            if c2.name == "next_expired" and p and p[-1] == ".1":
+                            if c2.name == "next_expired" and p and (p[-1] == ".1" or (p == (" as Some", ".0") and "Token" in body.facts.types[c2.dest["t"]]["s"] and "(" not in body.facts.types[c2.dest["t"]]["s"])):
+                                # the popped entry's token: field 1 of the (counter, token) pair, or the payload itself when
+                                # next_expired hands back the token alone
                                 ok = True
                         if r[0] == "agg":
                             rv2 = body.agg_at(r[1], r[2])
